@@ -274,3 +274,55 @@ fn c08_alias_i8_l128() {
     kani::cover!(allzero, "all zero");
     kani::cover!(!allzero, "some non-zero weight");
 }
+
+//@ id: c08_alias_u8_l33_tail
+//@ besteffort: yes
+//@ prop: C08
+//@ tier: thorough
+//@ cap: 1500
+//@ funcs: WeightedAliasIndex::<u8>::new (AliasableWeight::sum over more than 32 weights); weights()
+//@ bounds: 33 u8 weights: the first 32 zero, the last one any value in 1..=7 (= MAX/33)
+#[kani::proof]
+#[kani::unwind(36)]
+fn c08_alias_u8_l33_tail() {
+    let w: u8 = kani::any();
+    kani::assume(w >= 1 && w <= 7);
+    let mut ws = [0u8; 33];
+    ws[32] = w;
+    let r = WeightedAliasIndex::<u8>::new(mk_vec(&ws));
+    vassert!(r.is_ok(), "alias new: a valid vector whose only non-zero weight is the 33rd was rejected");
+    let d = r.unwrap();
+    vassert!(d.weight_sum == w, "alias: weight_sum differs from the sum of the weights (tail beyond 32 elements)");
+    let back = d.weights();
+    vassert!(back.len() == 33 && back[32] == w && back[0] == 0 && back[31] == 0, "alias weights(): does not reconstruct a 33-element vector");
+    kani::cover!(w == 7, "largest admissible weight");
+    core::mem::forget(back);
+    core::mem::forget(d);
+}
+
+//@ id: c08_weight_sum_l33_65
+//@ prop: C08
+//@ tier: quick
+//@ cap: 600
+//@ funcs: AliasableWeight::sum (u8, u32, i16) as used by WeightedAliasIndex::new for weight_sum; pairwise_sum split above 32 elements
+//@ bounds: every vector of 33 u8 weights <= 7, of 65 u32 weights <= 2^20 and of 40 i16 weights in [0, 800] (no overflow of the type)
+#[kani::proof]
+#[kani::unwind(70)]
+fn c08_weight_sum_l33_65() {
+    let a: [u8; 33] = kani::any();
+    let mut sa = 0u32;
+    let mut i = 0;
+    while i < 33 { kani::assume(a[i] <= 7); sa += a[i] as u32; i += 1; }
+    vassert!(<u8 as AliasableWeight>::sum(&a) as u32 == sa, "AliasableWeight::sum(u8, 33 weights) differs from the sum of the weights");
+    let b: [u32; 65] = kani::any();
+    let mut sb = 0u64;
+    let mut i = 0;
+    while i < 65 { kani::assume(b[i] <= (1 << 20)); sb += b[i] as u64; i += 1; }
+    vassert!(<u32 as AliasableWeight>::sum(&b) as u64 == sb, "AliasableWeight::sum(u32, 65 weights) differs from the sum of the weights");
+    let c: [i16; 40] = kani::any();
+    let mut sc = 0i32;
+    let mut i = 0;
+    while i < 40 { kani::assume(c[i] >= 0 && c[i] <= 800); sc += c[i] as i32; i += 1; }
+    vassert!(<i16 as AliasableWeight>::sum(&c) as i32 == sc, "AliasableWeight::sum(i16, 40 weights) differs from the sum of the weights");
+    kani::cover!(sa > 100 && sb > 1000, "non-trivial sums");
+}
